@@ -126,14 +126,19 @@ Log(e) == hist' = Append(hist, e)
 
 \* <object>.<attribute> = value (re-assigning the current value is a supported change too: new objects, same configuration)
 \* except Node.parent, where raysect returns early when the parent is already the one assigned
+\* public front-ends that reach the same configuration value: attribute assignment, <manager>.set(list),
+\* <manager>.clear() followed by .add(x) per element, and (composition only) .add(x) per element, which replaces species in place
+\* (Laser.models hands out a copy of its list: assignment is its only front-end)
+Vias(p) == IF p \in {"P_models", "B_models"} THEN {"assign", "set", "clear_add"}
+           ELSE IF p = "P_comp" THEN {"set", "clear_add", "add"} ELSE {"assign"}
 NoOpWhenSame == {"P_parent", "B_parent"}
 IsNoOp(p, v) == p \in NoOpWhenSame /\ cfg[p] = v
-Set(p, v) ==
+Set(p, v, via) ==
     /\ cfg' = [cfg EXCEPT ![p] = v]
     /\ cache' = IF IsNoOp(p, v) THEN cache
                 ELSE [k \in Caches |-> IF k \in Rebuilt(p, cfg') THEN <<Proj(k, cfg')>>
                                        ELSE IF k \in Cleared(p, cfg') THEN <<>> ELSE cache[k]]
-    /\ Log([op |-> "set", p |-> p, v |-> v, fired |-> IF IsNoOp(p, v) THEN {} ELSE Close(Fires(p, cfg')),
+    /\ Log([op |-> "set", p |-> p, v |-> v, via |-> via, fired |-> IF IsNoOp(p, v) THEN {} ELSE Close(Fires(p, cfg')),
             ops |-> IF IsNoOp(p, v) THEN {} ELSE OpsRun(p, cfg')])
 
 \* an observation fills the lazily computed state it needs from the *current* configuration
@@ -147,7 +152,7 @@ Observe(k) ==
     /\ UNCHANGED cfg
     /\ Log([op |-> "observe", k |-> k])
 
-NextStep == \/ \E p \in MutParams : \E v \in Values(p) : Set(p, v)
+NextStep == \/ \E p \in MutParams : \E v \in Values(p) : \E via \in Vias(p) : Set(p, v, via)
             \/ \E k \in ObsKinds : Observe(k)
 Next == Len(hist) <= MaxHist /\ NextStep
 Spec == Init /\ [][Next]_vars
